@@ -3,6 +3,8 @@ package yqlib
 import (
 	"fmt"
 
+	"github.com/mikefarah/yq/v4/pkg/verifhook"
+
 	logging "gopkg.in/op/go-logging.v1"
 )
 
@@ -54,6 +56,7 @@ func (d *dataTreeNavigator) GetMatchingNodes(context Context, expressionNode *Ex
 		log.Debugf("getMatchingNodes - nothing to do")
 		return context, nil
 	}
+	verifhook.Yield("op")
 	log.Debugf("Processing Op: %v", expressionNode.Operation.toString())
 	if log.IsEnabledFor(logging.DEBUG) {
 		for el := context.MatchingNodes.Front(); el != nil; el = el.Next() {
